@@ -302,6 +302,17 @@ func runScheduled(c Case, o rec, opts runOpts) (pbt.Verdict, *sched) {
 				wedged = append(wedged, fmt.Sprintf("p%d blocked [%s] in %s\n%s", p.id, g.state, g.top, g.text))
 			}
 		}
+		// if any unfinished participant can still run, whoever waits for it is not wedged
+		s.mu.Lock()
+		for _, p := range s.parts {
+			if p.started && !p.finished && p.parkedAt == "" {
+				if g, ok := gs[p.gid]; !ok || strings.HasPrefix(g.state, "run") {
+					wedged = nil
+					break
+				}
+			}
+		}
+		s.mu.Unlock()
 		s.drain()
 		discardRig(rg)
 		if len(wedged) > 0 {
@@ -392,7 +403,7 @@ func runScheduled(c Case, o rec, opts runOpts) (pbt.Verdict, *sched) {
 		o.label("excluded:%s", f17)
 	}
 	if s.excluded18 > 0 {
-		o.label("excluded:%s", f18Inbound)
+		labelExcluded18(o, c.Layer)
 	}
 	if len(c.Keys) > 1 {
 		used := map[int]bool{}
@@ -664,6 +675,17 @@ func recognise18(c *Case, parts []*pstate, p *pstate, loadsBy, preBy map[int][]l
 		}
 	}
 	return ""
+}
+
+// labelExcluded18 counts a case steered around the leader-cancel-leak class under the finding(s)
+// of the layer(s) it runs on.
+func labelExcluded18(o rec, layer string) {
+	if layer != layerSubgraph {
+		o.label("excluded:%s", f18Inbound)
+	}
+	if layer != layerInbound {
+		o.label("excluded:%s", f18Sub)
+	}
 }
 
 func keysOf(m map[string]bool) []string {
